@@ -1,5 +1,6 @@
 import HdVerif.Model.Json
 import HdVerif.Model.Tiling
+import HdVerif.Model.TilingChannels
 /-! JSON entry points of the tiling model, shared by `Drivers/C04.lean` and `Drivers/C12.lean`.
 
 Arrays travel as nested lists of integers; inside the model a pixel is an `Option Int` (`none` = an index
@@ -164,6 +165,33 @@ def handlers : List (String × Handler) := [
     pure (exceptToJson (fun (v : List LutRow × List (List (List Int))) => Json.mkObj [
       ("lut", Json.arr (v.1.map (fun r => intsToJson [r.rp, r.cp, r.fi, r.ch])).toArray),
       ("frames", Json.arr (v.2.map matrixToJson).toArray)]) r)),
+  -- Segmentation(tile_pixel_array=True), then a HISTORY of segment-aware reads on that one object: per step the result of the read
+  -- (one region per output channel) and the rows of the temporary channel table afterwards (null: no table)
+  ("segHistory", fun j => do
+    let ms := (← getMatrixList j "matrices").map imgOfLists
+    let segs ← getIntList j "segments"
+    let R ← getInt j "rows"; let C ← getInt j "cols"
+    let tr ← getInt j "th"; let tc ← getInt j "tw"
+    let full ← getBool j "full"; let omitE ← getBool j "omit_empty"
+    let stepsJ ← getArr j "steps"
+    let steps : List ChanRead ← stepsJ.toList.mapM (fun sj => do
+      let data ← getPairs sj "data"
+      match ← getReqs sj "request" with
+      | [q] => pure (⟨data, ← getInt sj "nch", q.rs, q.re, q.cs, q.ce, q.asIdx, ← getBool sj "refuses"⟩ : ChanRead)
+      | _ => throw "request must be a one-element list")
+    match tiledSegTable (some 0) (segs.zip ms) R C tr tc full omitE with
+    | .error e => pure (Json.mkObj [("err", Json.str e.toString)])
+    | .ok (lut, frames) =>
+      let results := (runHistory (some 0) lut frames R C tr tc full true steps none).1
+      let states := historyStates (some 0) lut frames R C tr tc full true steps none
+      let resJ := (results.zip steps).map (fun (rq : Except ErrKind (Int × Int × (Int → Img Px)) × ChanRead) =>
+        match rq.1 with
+        | .error e => Json.mkObj [("err", Json.str e.toString)]
+        | .ok (h, w, out) => okJson (Json.arr ((iota rq.2.nch).map (fun k => regionToJson (.ok (h, w, out k)))).toArray))
+      let stJ := states.map (fun st => match st with
+        | none => Json.null
+        | some t => pairsToJson t)
+      pure (okJson (Json.mkObj [("results", Json.arr resJ.toArray), ("states", Json.arr stJ.toArray)]))),
   ("tileIndexEnum", fun j => do
     let r := tileIndexEnum (← getInt j "R") (← getInt j "C") (← getInt j "tr") (← getInt j "tc")
     pure (exceptToJson pairsToJson r)),
